@@ -140,13 +140,25 @@ def compare() -> Dict[str, Any]:
             res.setdefault("skipped", []).append(f"{name}: {e}")
             continue
         res["runs"] += 1
-        if f["frames"] == r["frames"] and f["closed"] == r["closed"] and not f["crash"] and not r.get("crash"):
+        same = lambda r: f["frames"] == r["frames"] and f["closed"] == r["closed"] and not f["crash"] and not r.get("crash")
+        if not same(r):
+            # real sockets and a wall clock: a difference must reproduce before it is reported
+            try:
+                r2 = real_side(s, timeout=120.0)
+                if same(r2):
+                    r = r2
+                    res["retried"] = res.get("retried", 0) + 1
+            except (OSError, subprocess.TimeoutExpired):
+                pass
+        if same(r):
             res["agree"] += 1
         else:
             d = {"scenario": name}
             for u in sorted(set(f["frames"]) | set(r["frames"]), key=int):
                 if f["frames"].get(u, []) != r["frames"].get(u, []):
-                    d[f"uid{u}"] = {"fake": f["frames"].get(u, [])[:6], "real": r["frames"].get(u, [])[:6]}
+                    ff, rr = f["frames"].get(u, []), r["frames"].get(u, [])
+                    k = next((i for i, (x, y) in enumerate(zip(ff, rr)) if x != y), min(len(ff), len(rr)))
+                    d[f"uid{u}"] = {"first_difference_at": k, "fake": ff[k:k + 4], "real": rr[k:k + 4]}
             if f["closed"] != r["closed"]:
                 d["closed"] = {"fake": f["closed"], "real": r["closed"]}
             if f["crash"] or r.get("crash"):
